@@ -60,13 +60,42 @@ func txActions(fd *ast.FuncDecl) []string {
 		recv = fd.Recv.List[0].Names[0].Name
 	}
 	var acts []string
-	isRO := func(c ast.Expr) bool {
-		b, ok := c.(*ast.BinaryExpr)
-		if !ok || b.Op != token.EQL {
-			return false
+	// roCond classifies a condition on the transaction mode: (true, false) for "read-only"
+	// (mode == ReadOnly, readOnly, tx.readOnly, x.IsReadOnly()), (true, true) for its negation
+	// (mode != ReadOnly, mode == ReadWrite, !readOnly)
+	var roCond func(c ast.Expr) (bool, bool)
+	roCond = func(c ast.Expr) (bool, bool) {
+		switch e := c.(type) {
+		case *ast.ParenExpr:
+			return roCond(e.X)
+		case *ast.UnaryExpr:
+			if e.Op == token.NOT {
+				if ok, neg := roCond(e.X); ok {
+					return true, !neg
+				}
+			}
+		case *ast.BinaryExpr:
+			if e.Op == token.EQL || e.Op == token.NEQ {
+				for _, side := range []ast.Expr{e.Y, e.X} {
+					if y, ok := side.(*ast.Ident); ok && (y.Name == "ReadOnly" || y.Name == "ReadWrite") {
+						return true, (y.Name == "ReadWrite") != (e.Op == token.NEQ)
+					}
+				}
+			}
+		case *ast.Ident:
+			if e.Name == "readOnly" || e.Name == "isReadOnly" {
+				return true, false
+			}
+		case *ast.SelectorExpr:
+			if e.Sel.Name == "readOnly" {
+				return true, false
+			}
+		case *ast.CallExpr:
+			if sx, ok := e.Fun.(*ast.SelectorExpr); ok && sx.Sel.Name == "IsReadOnly" && len(e.Args) == 0 {
+				return true, false
+			}
 		}
-		y, ok := b.Y.(*ast.Ident)
-		return ok && y.Name == "ReadOnly"
+		return false, false
 	}
 	var walk func(n ast.Node)
 	walk = func(n ast.Node) {
@@ -83,22 +112,32 @@ func txActions(fd *ast.FuncDecl) []string {
 				if x.Init != nil {
 					walk(x.Init)
 				}
-				ro := isRO(x.Cond)
-				if ro {
-					acts = append(acts, "if-readonly")
-				} else {
+				ro, neg := roCond(x.Cond)
+				if !ro {
 					walk(x.Cond)
-				}
-				walk(x.Body)
-				if x.Else != nil {
-					if ro {
-						acts = append(acts, "else")
+					walk(x.Body)
+					if x.Else != nil {
+						walk(x.Else)
 					}
-					walk(x.Else)
+					return false
 				}
-				if ro {
-					acts = append(acts, "fi")
+				// canonical form: the read-only branch first, whichever way the source spells the test
+				var first, second ast.Node = x.Body, nil
+				if x.Else != nil {
+					second = x.Else
 				}
+				if neg {
+					first, second = second, x.Body
+				}
+				acts = append(acts, "if-readonly")
+				if first != nil {
+					walk(first)
+				}
+				if second != nil {
+					acts = append(acts, "else")
+					walk(second)
+				}
+				acts = append(acts, "fi")
 				return false
 			case *ast.ReturnStmt:
 				for _, r := range x.Results {
@@ -152,7 +191,33 @@ func txActions(fd *ast.FuncDecl) []string {
 		})
 	}
 	walk(fd.Body)
-	return acts
+	return dropEmptyConditionals(acts)
+}
+
+// dropEmptyConditionals removes mode tests that guard no recorded action ("if-readonly fi",
+// "if-readonly else fi", and an empty else branch), repeatedly: only tests with an action in a
+// branch are part of the structure the model transcribes.
+func dropEmptyConditionals(a []string) []string {
+	for changed := true; changed; {
+		changed = false
+		var out []string
+		for i := 0; i < len(a); i++ {
+			switch {
+			case a[i] == "if-readonly" && i+1 < len(a) && a[i+1] == "fi":
+				i++
+				changed = true
+			case a[i] == "if-readonly" && i+2 < len(a) && a[i+1] == "else" && a[i+2] == "fi":
+				i += 2
+				changed = true
+			case a[i] == "else" && i+1 < len(a) && a[i+1] == "fi":
+				changed = true // keep the "fi" (next iteration), drop the empty else
+			default:
+				out = append(out, a[i])
+			}
+		}
+		a = out
+	}
+	return a
 }
 
 func genTxFacts() (string, string) {
